@@ -10,7 +10,6 @@ theorem f_O_unlock (s s' : St) (rest : List Sto) : Inv s → s.bufO = .unlock ::
   intro h hb hs
   exfalso
   cases hpc : s.opc
-  all_goals (cases h; simp only [hpc, ownerLocked, carry, resetting, ownerFlight] at *)
-  all_goals tso_absurd
+  all_goals tso_absurd_core h hpc
 
 end MythVerif.WsqTso
